@@ -334,7 +334,7 @@ _CLASS = (0, 0, 0, 1, 2, 3, 4, 4, 5, 6)
 
 
 _MK = '''
-@ob(budget=150, family='mixed-keys', bound='first key = entry {i} of a table of 10 values of 7 types (integer / decimal / double of equal value, strings, '
+@ob(budget={budget}, kind={kind!r}, family='mixed-keys', bound='first key = entry {i} of a table of 10 values of 7 types (integer / decimal / double of equal value, strings, '
                       'xs:date, xs:dayTimeDuration, double and float NaN), second key: any entry (index chosen by the solver): map:put/get/contains/remove/'
                       'keys/merge identify keys by op:same-key (numerically equal numbers and the NaNs are one key; values of not comparable '
                       'types are different keys, no error)',
@@ -355,7 +355,8 @@ def map_keys_of_mixed_types_{i}(j: int) -> bool:
 '''
 from harness.common import define  # noqa: E402
 for _i in range(10):
-    define(_MK.format(i=_i), globals())
+    # first keys xs:date / xs:dayTimeDuration: the datetime model does not exhaust (paths keep forking): bug-hunting
+    define(_MK.format(i=_i, budget=120 if _i in (4, 5) else 200, kind='hunt' if _i in (4, 5) else 'main'), globals())
 
 
 # recorded findings: key identity is the identity of Python dict keys (hash + ==) of the datatype classes
@@ -381,3 +382,23 @@ def known_date_time_key_collision(k: int) -> bool:
     post: _
     """
     return ev(T['kf_time'], d='2000-01-01', t='00:00:00') == [2]
+
+
+# keys of types whose == raises TypeError (xs:date vs xs:time).  CrossHair's dict model compares a looked-up key with `==` against every
+# stored key (a real dict only on equal hashes), so a map HOLDING both kinds of key cannot be driven under the solver (SPURIOUS TypeError,
+# or the tracer crawling through a patched model): only the operations that do not look a key up in such a dict are checked here.
+from elementpath.datatypes import Time as _Time  # noqa: E402
+T.update(parse_all({'dt_sep': '(map:size(map:remove(map:entry($d, 1), $t)), map:contains(map:entry($d, 1), $t), map:size(map:remove(map:entry($t, 1), ($d, 7))))'}))
+
+
+@ob(budget=60, tbudget=300, kind='hunt', bound='an xs:date key and an xs:time key (2 x 2 values chosen by the solver; == between them raises TypeError): map:remove '
+                      'and map:contains with a key of the other type leave the map alone and raise nothing (datetime model keeps forking: bug-hunting)',
+    funcs=[F31 + ':map:remove', F31 + ':map:contains', 'elementpath/helpers.py:not_equal'])
+def map_remove_key_of_other_type(di: int, ti: int) -> bool:
+    """
+    pre: 0 <= di <= 1 and 0 <= ti <= 1
+    post: _
+    """
+    d = _Date(1999, 12, 31) if di == 1 else _Date(2020, 1, 1)
+    t = _Time(23, 59, 59) if ti == 1 else _Time(10, 0, 0)
+    return ev(T['dt_sep'], d=d, t=t) == [1, False, 1]
